@@ -39,9 +39,14 @@ def plan(tier, seed):
         specs.append(dict(kind='multi', sub=k, pairs=2 + k % 2,
                           count=20000 if tier == 'thorough' else 500,
                           hashseed=k))
+    for k in range(4 if tier == 'quick' else 32):
+        specs.append(dict(kind='wide', sub=k,
+                          rounds=25 if tier == 'quick' else 120,
+                          hashseed=k))
     meta = dict(
         rule=RULE,
-        require=['image_results', 'preimage_results', 'level_arguments',
+        require=['wide_results', 'image_results', 'preimage_results',
+                 'level_arguments',
                  'calls_with_reordering_due',
                  'autoref_results', 'outside_class_inputs',
                  'nonadjacent_image_results'],
@@ -293,6 +298,102 @@ def multi(ctx, spec):
             return
 
 
+def wide(ctx, spec):
+    """Many pairs (up to 40): the transition relation toggles a fixed set
+    of bits, x_i' <=> (x_i xor m_i), so that the image of a set S is
+    {s xor m : s in S} and so is the preimage; both are judged pointwise
+    on sampled states (no truth tables at this size)."""
+    import dd.bdd as _b
+    import dd.autoref as _a
+    from vf import big
+    logging.getLogger('dd.bdd').setLevel(logging.ERROR)
+    rng = ctx.rng('wide', spec['sub'])
+    for rnd in range(spec['rounds']):
+        k = rng.choice((3, 8, 16, 17, 18, 24, 31, 32, 33, 40))
+        un = [f'x{i}' for i in range(k)]
+        pr = [f"x{i}'" for i in range(k)]
+        blocks = [[a, b] if rng.random() < 0.5 else [b, a]
+                  for a, b in zip(un, pr)]
+        rng.shuffle(blocks)
+        order = [v for blk in blocks for v in blk]
+        lv = {v: i for i, v in enumerate(order)}
+        keys = list(lv)
+        rng.shuffle(keys)
+        auto = rng.random() < 0.4
+        ab = _a.BDD({v: lv[v] for v in keys})
+        bdd = ab._bdd
+        mask = {v: rng.random() < 0.5 for v in un}
+        # relation and set through the public interface of dd.autoref
+        # (handles keep everything alive)
+        trans = ab.true
+        for x, xp in zip(un, pr):
+            e = ab.add_expr(f"{xp} <=> {'~ ' if mask[x] else ''}{x}")
+            trans = trans & e
+        cubes = []
+        S = ab.false
+        for _ in range(rng.randint(1, 5)):
+            vs = rng.sample(un, rng.randint(1, min(k, 6)))
+            d = {v: rng.random() < 0.5 for v in vs}
+            cubes.append(d)
+            S = S | ab.cube(d)
+
+        def in_S(a):
+            return any(all(a[v] == b for v, b in d.items()) for d in cubes)
+        fn = rng.choice(('image', 'preimage'))
+        fa = False
+        if fn == 'image':
+            rename = dict(zip(pr, un))
+            qv = list(un)
+        else:
+            rename = dict(zip(un, pr))
+            qv = list(pr)
+        how = rng.randrange(3)
+        form = QFORMS[rng.randrange(len(QFORMS))]
+        if how == 1:
+            rn = {bdd.vars[a]: bdd.vars[b] for a, b in rename.items()}
+            q = as_form(form, [bdd.vars[v] for v in qv])
+            got = (_b.image if fn == 'image' else _b.preimage)(
+                trans.node, S.node, rn, q, bdd, fa)
+            ctx.counters['level_arguments'] += 1
+        elif how == 2 or auto:
+            r = (_a.image if fn == 'image' else _a.preimage)(
+                trans, S, rename, as_form(form, qv), fa)
+            got = r.node
+            bdd.incref(got)
+            del r
+            bdd.decref(got)
+        else:
+            got = (_b.image if fn == 'image' else _b.preimage)(
+                trans.node, S.node, rename, as_form(form, qv), bdd, fa)
+        ctx.counters[fn + '_results'] += 1
+        ctx.counters['wide_results'] += 1
+        ctx.note('pairs', k)
+        # judge on sampled states over the unprimed variables
+        for _ in range(60):
+            a = {v: rng.random() < 0.5 for v in un}
+            if rng.random() < 0.5:
+                # a state that is in the answer: s xor m for s in S
+                d = rng.choice(cubes)
+                s0 = dict(a)
+                s0.update(d)
+                a = {v: s0[v] != mask[v] for v in un}
+            full = dict(a)
+            full.update({v: False for v in pr})
+            want = in_S({v: a[v] != mask[v] for v in un})
+            if big.eval_bdd(bdd, got, full) != want:
+                ctx.violation(fn, 'wrong-result',
+                              dict(pairs=k, how=how, order=order[:12],
+                                   qvars_as=form, want=want))
+                return
+        sup = bdd.support(got)
+        if sup & set(pr):
+            ctx.violation(fn, 'result-depends-on-primed-variable',
+                          dict(pairs=k, vars=sorted(sup & set(pr))[:6]))
+            return
+        ctx.case(True, 'wide', fn, k, tuple(order), rnd)
+        del trans, S, e
+
+
 def run_shard(ctx, spec):
-    fn = dict(one=one, multi=multi)[spec['kind']]
+    fn = dict(one=one, multi=multi, wide=wide)[spec['kind']]
     ctx.guard(spec['kind'], fn, ctx, spec, case=spec)
